@@ -1844,7 +1844,7 @@ pub fn c10_hostile(seed: u64) -> Scenario {
     let mut syn_budget = 10u32;
     for _ in 0..n_steps {
         let at_ms = r.range(0, t_attack_end);
-        let src = match r.below(20) {
+        let mut src = match r.below(20) {
             0..=9 => Src::Own,
             10..=16 => Src::Spoof(1),
             _ => Src::Nowhere(r.below(5) as u16),
@@ -1867,6 +1867,16 @@ pub fn c10_hostile(seed: u64) -> Scenario {
                 let in_order = r.range(1, 4) as usize;
                 let ahead = (cap - 1 - r.below(in_order as u64 + 2) as i64 + r.below(2) as i64).max(1) as u16;
                 Kind::EdgeData { in_order, ahead }
+            }
+            10 if own.is_some() => {
+                src = Src::Own;
+                // a very late (or made-up) acknowledgement on the attacker's own connection: well
+                // formed, with a selective-ACK bitmap, its number far behind what the target has
+                // in flight (around and beyond the reach of a 64-bit bitmap)
+                let behind = *r.pick(&[1i32, 2, 3, 30, 62, 63, 64, 65, 66, 67, 68, 70, 100, 1000, 20000, 32000]);
+                let len = *r.pick(&[4usize, 4, 8, 8, 32]);
+                let d: Vec<u8> = (0..len).map(|_| if r.chance(0.3) { 0xFF } else { r.next() as u8 }).collect();
+                Kind::Header { typ: *r.pick(&[2u8, 2, 2, 0, 1]), ver: 1, cid: CidSel::Own(0), seq: NumSel::Mine(0), ack: NumSel::Theirs(-behind), wnd: 1 << 20, ext: ExtSpec::Sack(d), payload: 0, truncate_to: None }
             }
             _ => {
                 let mut typ = if r.chance(0.9) { r.below(5) as u8 } else { r.range(5, 15) as u8 };
@@ -1927,8 +1937,11 @@ pub fn c10_hostile(seed: u64) -> Scenario {
         steps.push(AttackStep { at_ms, src, kind });
     }
     // the own connection opens with its token so that the target's application keeps it
-    if own.is_some() && any_own_data {
-        steps.push(AttackStep { at_ms: own.as_ref().unwrap().at_ms + r.range(30, 120), src: Src::Own, kind: Kind::ValidData { len: 8 + r.below(200) as usize } });
+    // ("eager": the token rides right behind the SYN, before the SYN-ACK can have arrived)
+    let eager = r.chance(0.3);
+    if own.is_some() && (any_own_data || eager) {
+        let after = if eager { 0 } else { r.range(30, 120) };
+        steps.push(AttackStep { at_ms: own.as_ref().unwrap().at_ms + after, src: Src::Own, kind: Kind::ValidData { len: 8 + r.below(200) as usize } });
     }
     let attack = AttackScript { seed: r.next(), idx: 2, target: 0, own, steps };
     let mut accepts = vec![];
@@ -1951,11 +1964,15 @@ pub fn c10_hostile(seed: u64) -> Scenario {
         let t = r.range(0, 5);
         accepts.push(mk_acc(&mut r, 1, t));
     }
-    let net = NetCfg { seed: r.next(), latency_us: *r.pick(&[0u64, 1_000, 5_000, 20_000]), ..Default::default() };
+    let mut net = NetCfg { seed: r.next(), latency_us: *r.pick(&[0u64, 1_000, 5_000, 20_000]), ..Default::default() };
+    // the sockets' send buffers are full now and then (a send is refused and retried)
+    if r.chance(0.3) {
+        net.pending_p = *r.pick(&[0.02, 0.1, 0.3]);
+    }
     let mut params = std::collections::BTreeMap::new();
     params.insert("direct_attack".to_string(), attack.has_direct_attack() as i64);
     params.insert("acceptor_bytes".to_string(), b_acc as i64);
-    Scenario {
+    let mut sc = Scenario {
         family: "c10_hostile".to_string(),
         seed,
         net,
@@ -1968,5 +1985,8 @@ pub fn c10_hostile(seed: u64) -> Scenario {
         script_cap_ms: 40_000,
         settle_ms: 3_000,
         params,
-    }
+    };
+    let hsh = sc.app_scripts_hash();
+    sc.params.insert("app_scripts_hash".to_string(), hsh);
+    sc
 }
